@@ -82,6 +82,19 @@ def run_item(item, kind, props, lane, tier, log):
     tree = os.path.join(lane_dir, "tree")
     root = os.path.join(lane_dir, "root")
     target = os.path.join(lane_dir, "target")
+    # warm-up: a driver built against the pristine tree (C17 falls back to it when a mutated tree
+    # no longer compiles with all features; see check.sh)
+    if not os.path.exists(os.path.join(target, "release", "hv.last")):
+        wenv = dict(os.environ)
+        wenv.update({"VERIF_TARGET": target, "VERIF_ROOT": os.path.join(lane_dir, "warm")})
+        wenv.pop("HPKE_TREE", None)
+        os.makedirs(os.path.join(lane_dir, "warm"), exist_ok=True)
+        for name in ("corpus", "known_findings.txt", "probes"):
+            src = os.path.join(VERIF, name)
+            dstp = os.path.join(lane_dir, "warm", name)
+            if os.path.exists(src) and not os.path.exists(dstp):
+                os.symlink(src, dstp)
+        subprocess.run([os.path.join(VERIF, "check.sh"), "C12", "quick"], env=wenv, capture_output=True, text=True)
     make_tree(tree)
     if os.path.exists(root):
         shutil.rmtree(root)
@@ -147,6 +160,8 @@ def main():
             props = [p for p in it.get("expect", reg) if p in reg] if a.kind != "neutral" else reg
         elif a.props == "all":
             props = reg
+        elif a.props == "allfast":
+            props = [p for p in reg if p != "C17" or p in it.get("expect", [])]
         else:
             props = [p for p in a.props.split(",") if p in reg]
         if props:
